@@ -62,6 +62,11 @@ PROPS["C05"] = dict(
     title="conditional writes are decided on the target item only, atomically",
     quick=[G("M_COND"), H(30)],
     thorough=[G("M_COND", cfg="M_COND_t"), H(600, 60)],
+    # "atomically": racing conditional writes on one key, one winner per round (recorded histories, TLC linearizes them)
+    conc_quick=[dict(scenario="condupdate", seeds=1, g=6, n=10), dict(scenario="condupdate", seeds=2, g=8, n=25, race=False),
+                dict(scenario="putonce", seeds=1, g=6, n=4)],
+    conc_thorough=[dict(scenario="condupdate", seeds=5, g=6, n=10), dict(scenario="condupdate", seeds=10, g=8, n=40, race=False),
+                   dict(scenario="putonce", seeds=5, g=8, n=6)],
     own=[parts("Outcome", "ErrClass", "CcfItem", "Base", "Index", "IdxCount", "Data")],
     design_ref="DESIGN.md 6 C05",
     level_text="Conditional Put / Update / Delete for every condition of a 6-entry menu in every state of a bounded table (target present "
@@ -109,6 +114,9 @@ PROPS["C18"] = dict(
     title="table lifecycle and metadata stay coherent",
     quick=[G("M_LIFE", cfg="M_LIFE_a"), G("M_LIFE", cfg="M_LIFE_b"), H(30)],
     thorough=[G("M_LIFE", cfg="M_LIFE_t"), H(600, 60)],
+    # a table name is created once, also when several callers create it at the same moment
+    conc_quick=[dict(scenario="createrace", seeds=3, g=8, n=30, race=False), dict(scenario="lifecycle", seeds=2, g=5, n=8)],
+    conc_thorough=[dict(scenario="createrace", seeds=20, g=8, n=40, race=False), dict(scenario="lifecycle", seeds=20, g=6, n=12)],
     own=[parts("Outcome", "ErrClass", "Data", "Base", "Index", "IdxCount", "IdxDesc", "Desc", "Catalog", "NoCrash")],
     design_ref="DESIGN.md 6 C18",
     level_text="Every interleaving of create (helper and full CreateTable, valid and invalid configurations, both billing modes, global and "
